@@ -117,7 +117,9 @@ GRAPH_CFG = [(C, 6), (PY, 4), (C_H1, 1), (PY_H7, 1)]
 _p('C02', 'exploration',
    [Part('graph', {'props': ['C02']}, configs=GRAPH_CFG, quick=36000, thorough=1200000, name='graph/C02'),
     Part('graph', {'props': ['C02'], 'ifaces_only': True}, configs=[(C, 1), (PY, 1)], quick=6000, thorough=200000,
-         name='graph/C02/ifaces')],
+         name='graph/C02/ifaces'),
+    # process configuration: the legacy resolution order (reachability does not depend on the order, so the same oracle applies)
+    Part('graph', {'props': ['C02']}, configs=[(C_LEGACY, 1), (PY_LEGACY, 1)], quick=4000, thorough=100000, name='graph/C02/legacy')],
    rule='one case = one seeded rebasing history (3-18 ops: __bases__ assignment at interfaces, class specifications, instance '
         'declarations and plain declarations -- class specifications also through classImplementsOnly; creation of new dependents; '
         'gc / drop-dependent / permute-notification-order faults; before each re-basing every specification below it is asked one '
